@@ -100,6 +100,16 @@ class PipeFamily(Family):
             pauses = [(rng.choice([50, 200]) if rng.below(8) == 0 else 0) for _ in chunks] if len(chunks) < 40 else [0] * len(chunks)
             fail = "-" if rng.below(2) else str(rng.below(nrec + 2))
             out.append({"delim": delim, "fail": fail, "chunks": chunks, "pauses": pauses})
+        # a writer that stalls in the middle of a record (longer than any read time-out one might add)
+        for slow in ([600000, 1200000] if tier == "quick" else [300000, 600000, 1200000, 2500000, 5500000]):
+            data, nrec = stream(rng, 10)
+            while len(data) < 8:
+                data, nrec = stream(rng, 10)
+            cut = 1 + rng.below(len(data) - 1)
+            # cut inside a record: not right after a delimiter
+            while data[cut - 1] == "\n" and cut < len(data) - 1:
+                cut += 1
+            out.append({"delim": 10, "fail": "-", "chunks": [data[:cut], data[cut:]], "pauses": [0, slow]})
         return out
 
     def extra_cases(self, rng, n):
